@@ -3,7 +3,7 @@
 parse_env_file through hook H6; RunStats::summarize_final through the public API) + an independent
 oracle (plain Python) for the documented rule, evaluated on the implementation's own answers."""
 import json, os
-import vlib
+import vlib, gen_tie
 from vlib import coq_str, coq_list, coq_bool, decode_str
 
 PROP = "C18"
@@ -731,6 +731,10 @@ def run(tier, seed):
     chk = vlib.Check(PROP, tier, seed)
     gate = vlib.coq_gate(PROP)
     vlib.gate_or_violation(chk, gate)
+    # DESIGN 11.7 (second round): these decisions are regenerated from the Rust source and proved equal to the
+    # model's for all inputs; a failure is reported when the check finishes unless a stage below finds a
+    # concrete failing input
+    gen_tie.gate(chk, ['script_platform_guard'], gate)
     checker = "make -C coq Properties/C18.vo && coqc gen/assump_C18.v (Print Assumptions)"
     binary, err = vlib.build_harness()
     if binary is None:
